@@ -158,6 +158,17 @@ EitherItems(b) == CASE SniffKind(b) = "eof"     -> << >>
                     [] SniffKind(b) = "fastq"   -> FastqItems(b)
                     [] OTHER                    -> << ErrItem("sniff") >>
 
+\* the sniffer on a seekable source that is not at offset 0: the abstract state of the source is
+\* (bytes, position); get_kind_seek reads one byte and puts it back, so the position is unchanged
+\* and the selected parser reads the records of bytes[position..]
+Suffix(b, off) == SubSeq(b, off + 1, Len(b))
+SniffAt(b, off) == [kind |-> SniffKind(Suffix(b, off)), pos |-> off]
+ItemsAfterSniff(b, off) ==
+    LET k == SniffKind(Suffix(b, off))
+    IN  IF k = "fasta" THEN FastaItems(Suffix(b, off))
+        ELSE IF k = "fastq" THEN FastqItems(Suffix(b, off))
+        ELSE << >>
+
 ItemsFor(parser, b) == CASE parser = "fasta" -> FastaItems(b)
                          [] parser = "fastq" -> FastqItems(b)
                          [] OTHER            -> EitherItems(b)
@@ -276,6 +287,18 @@ Mu(m) ==
       [] m.kind = "fasta"  -> 2 * (L + 1 - Pending(m)) + (IF m.phase = "seq" THEN 1 ELSE 0)
       [] OTHER             -> (L + 1 - m.i) * (L + 5)
                               + (CASE m.phase = "seq" -> L + 3 [] m.phase = "qual" -> 1 + m.q [] OTHER -> 0)
+
+\* --- seekable source + get_kind_seek: read_exact(1 byte), seek(Current(-1))
+SInit(b, off) == [kind |-> "seeksrc", data |-> b, pos0 |-> off, pos |-> off, phase |-> "read", byte |-> NoByte,
+                  res |-> "", done |-> FALSE]
+SReadEn(m) == ~m.done /\ m.phase = "read"
+SRead(m) ==                                   \* read_exact of one byte: UnexpectedEof leaves the position alone
+    IF m.pos >= Len(m.data) THEN [m EXCEPT !.res = "eof", !.done = TRUE]
+    ELSE [m EXCEPT !.byte = m.data[m.pos + 1], !.pos = m.pos + 1, !.phase = "back"]
+SBackEn(m) == ~m.done /\ m.phase = "back"
+SBack(m) ==                                   \* SeekFrom::Current(-1), then the decision on the byte
+    [m EXCEPT !.pos = m.pos - 1, !.done = TRUE,
+              !.res = IF m.byte = GT THEN "fasta" ELSE IF m.byte = AT THEN "fastq" ELSE "invalid"]
 
 \* --- BufReader + read_line: why the chunking of read() is invisible
 LInit(b, cap) == [kind |-> "lines", data |-> b, cap |-> cap, pos |-> 0, buf |-> << >>, line |-> << >>,
